@@ -437,7 +437,7 @@ def run(tier, seed, replay, cfg, verdict, wd, t0):
     # every client correctly"): junk from an attacker followed by a valid message of the well-behaved client
     ri = L.run([L.harness_bin(BIN), "--mode", "interfere"], timeout=600)
     interfere = json.loads(ri.stdout.strip().splitlines()[-1])
-    if interfere["cases"] < 1000:
+    if interfere["cases"] < 1000 and not interfere["failure_count"]:
         raise L.ToolError("interference pass ran too few cases")
     if interfere["failure_count"]:
         rp = L.save_replay(PID, f"{tier}-interfere.json", interfere["failures"][:50])
